@@ -27,7 +27,8 @@ Definition pair_eqb {A B} (ea : A -> A -> bool) (eb : B -> B -> bool) (a b : A *
 Inductive obs_res :=
 | OSubmitted (idx : nat) | ONewSeqErr | OBusy | OLoadErr | OIdle
 | OStepped (batch : list (tok * Z * nat * bool)) (chosen : list tok)
-| OStepErr.
+| OStepErr
+| OCacheFull.
 
 Record obs := mkObs {
   o_res : obs_res;
@@ -62,6 +63,7 @@ Definition res_eqb (m : ores) (o : obs_res) : bool :=
   | RIdle, OIdle => true
   | RStepped b c, OStepped b' c' => list_eqb entry_eqb (map proj_entry b) b' && list_eqb Z.eqb c c'
   | RFatal, OStepErr => true
+  | RCacheFull, OCacheFull => true
   | _, _ => false
   end.
 
@@ -79,7 +81,7 @@ Definition state_eqb (st : state) (o : obs) : bool :=
   && list_eqb (list_eqb (pair_eqb Z.eqb Z.eqb))
               (map (fun i => sort_vis (view (kv st) i)) (seq O (length (slots st)))) (o_cells o).
 
-Definition terminal (r : ores) : bool := match r with RFatal | RPanic => true | _ => false end.
+Definition terminal (r : ores) : bool := match r with RFatal | RPanic | RCacheFull => true | _ => false end.
 
 (** index of the first disagreeing operation, or None *)
 Fixpoint chk_from (F : list (Z * tok) -> tok) (cfg : config) (st : state) (tr : list (op * obs)) (i : nat) : option nat :=
@@ -107,7 +109,7 @@ Definition model_trace (vocab : Z) (cfg : config) (parallel : nat) (ops : list o
 
 (** pure parts, also used for llamarunner's copy of the same functions *)
 Definition chk_shift_discard (nctx inputLen numKeep r : Z) : bool :=
-  shift_discard (mkCfg nctx 1 false true true true (-1) None) inputLen numKeep =? r.
+  shift_discard (mkCfg nctx 1 false true true true (-1) None (-1)) inputLen numKeep =? r.
 Definition chk_common_prefix (a b : list tok) (r : nat) : bool := (common_prefix a b =? r)%nat.
 
 (** slot choice on a hand-made InputCache without a KV cache (as the packages' own tests do):
